@@ -2,6 +2,7 @@ import MosnVerif.Drive.Util
 import MosnVerif.Model.PoolSpec
 import MosnVerif.Model.StreamOnce
 import MosnVerif.Model.PoolMux
+import MosnVerif.Model.PoolH2
 namespace MosnVerif.Drive.C09
 open MosnVerif.Drive MosnVerif.Model.Pool
 
@@ -158,6 +159,7 @@ def parseOp (t : String) : Option PoolMux.Op :=
   else if t.startsWith "IT" then (numAfter t 2).map (fun n => .checkAndInit (some n) .timeout)
   else if t.startsWith "I" then (numAfter t 1).map (fun n => .checkAndInit (some n) .ok)
   else if t.startsWith "N" then (numAfter t 1).map .newStream
+  else if t.startsWith "O" then (numAfter t 1).map .newStreamOneway
   else if t.startsWith "R" then (numAfter t 1).map .response
   else if t.startsWith "X" then (numAfter t 1).map .garbage
   else if t.startsWith "L" then (numAfter t 1).map .localReset
@@ -174,19 +176,19 @@ def parseSlot (t : String) : Option PoolMux.OSlot :=
     if r == "f" then some ⟨true, l == 'C', none⟩ else r.toNat?.map (fun c => ⟨true, l == 'C', some c⟩)
   | [] => none
 
-/-- `res;b<slots>;d<shutdown>;q<cur>;n<conns>;s<streams>` -/
+/-- `res;b<slots>;d<shutdown>;q<cur>;a<host request_active>:<cluster request_active>;n<conns>;s<streams>` -/
 def parseObs (t : String) : Option (String × PoolMux.Obs) :=
   match t.splitOn ";" with
-  | [res, bb, dd, qq, nn, ss] =>
-    if !(bb.startsWith "b" && dd.startsWith "d" && qq.startsWith "q" && nn.startsWith "n" && ss.startsWith "s") then none else
+  | [res, bb, dd, qq, aa, nn, ss] =>
+    if !(bb.startsWith "b" && dd.startsWith "d" && qq.startsWith "q" && aa.startsWith "a" && nn.startsWith "n" && ss.startsWith "s") then none else
     let slotToks := ((bb.drop 1).toString.splitOn ",").filter (· ≠ "")
     let strToks := ((ss.drop 1).toString.splitOn ",").filter (· ≠ "")
     let conns := (nn.drop 1).toString.toList
     if conns.any (fun ch => ch != 'o' && ch != 'c') then none else
-    match parseInt? (qq.drop 1).toString, slotToks.mapM parseSlot, strToks.mapM parseStream with
-    | some q, some slots, some streams =>
-      some (res, { slots := slots, reqCur := q, conns := conns.map (· == 'o'), streams := streams })
-    | _, _, _ => none
+    match parseInt? (qq.drop 1).toString, ((aa.drop 1).toString.splitOn ":").mapM parseInt?, slotToks.mapM parseSlot, strToks.mapM parseStream with
+    | some q, some [ah, ac], some slots, some streams =>
+      some (res, { slots := slots, reqCur := q, actHost := ah, actCluster := ac, conns := conns.map (· == 'o'), streams := streams })
+    | _, _, _, _ => none
   | _ => none
 
 def okConn (res : String) : Option Nat := if res.startsWith "ok" then (res.drop 2).toString.toNat? else none
@@ -203,6 +205,8 @@ def specAlong (maxReq : Nat) : Nat → PoolMux.Obs → List PoolMux.Op → List 
       let stepOk := match op with
         | .newStream k => (res.startsWith "ok" || res == "ovf" || res == "cf") &&
             PoolMux.newStreamSpec maxReq ext (if n > 1 then k else 0) before (okConn res) o
+        | .newStreamOneway k => (res.startsWith "ok" || res == "ovf" || res == "cf") &&
+            PoolMux.onewaySpec maxReq ext (if n > 1 then k else 0) before (okConn res) o
         | .checkAndInit slot _ => (res == "t" || res == "f") && (res != "t" || o == before) &&
             (match slot with
               | some k => match before.slots[if n > 1 then k else 0]? with
@@ -212,7 +216,8 @@ def specAlong (maxReq : Nat) : Nat → PoolMux.Obs → List PoolMux.Op → List 
         | _ => res == "-"
       stepOk && PoolMux.obsSpec maxReq ext' o && specAlong maxReq ext' o ops ts
 
-def emptyObs (n : Nat) : PoolMux.Obs := { slots := List.replicate n ⟨false, false, none⟩, reqCur := 0, conns := [], streams := [] }
+def emptyObs (n : Nat) : PoolMux.Obs :=
+  { slots := List.replicate n ⟨false, false, none⟩, reqCur := 0, actHost := 0, actCluster := 0, conns := [], streams := [] }
 
 def mux (mc mr ops : String) (impl : List String) : String :=
   match mc.toNat?, mr.toNat?, (ops.splitOn ",").mapM parseOp with
@@ -227,8 +232,83 @@ def mux (mc mr ops : String) (impl : List String) : String :=
 
 end Mux
 
+/-! ### kind `h2p`: the HTTP/2 pool -/
+namespace H2
+open MosnVerif.Model
+
+def parseOp (t : String) : Option PoolH2.Op :=
+  if t == "N" then some (.newStream .ok) else if t == "NF" then some (.newStream .refused)
+  else if t == "NT" then some (.newStream .timeout)
+  else if t == "S" then some .shutdown else if t == "Z" then some .closeAll
+  else if t == "E+" then some .extInc else if t == "E-" then some .extDec
+  else if t.startsWith "R" then (numAfter t 1).map .response
+  else if t.startsWith "L" then (numAfter t 1).map .localReset
+  else if t.startsWith "X" then (numAfter t 1).map .remoteReset
+  else if t.startsWith "G" then (numAfter t 1).map .goAway
+  else if t.startsWith "CR" then (numAfter t 2).map (fun n => .connClose n true)
+  else if t.startsWith "CL" then (numAfter t 2).map (fun n => .connClose n false)
+  else none
+
+/-- the pool's client: `-` none, `<c>` connection c, `<c>g` connection c with the go-away mark -/
+def parseActive (t : String) : Option (Option Nat × Bool) :=
+  if t == "-" then some (none, false)
+  else if t.endsWith "g" then (t.dropEnd 1).toString.toNat?.map (fun c => (some c, true))
+  else t.toNat?.map (fun c => (some c, false))
+
+/-- `res;p<client>;c<host connection_active>:<cluster>;q<cur>;a<host request_active>:<cluster>;n<conns>;s<streams>` -/
+def parseObs (t : String) : Option (String × PoolH2.Obs) :=
+  match t.splitOn ";" with
+  | [res, pp, cc, qq, aa, nn, ss] =>
+    if !(pp.startsWith "p" && cc.startsWith "c" && qq.startsWith "q" && aa.startsWith "a" && nn.startsWith "n" && ss.startsWith "s") then none else
+    let strToks := ((ss.drop 1).toString.splitOn ",").filter (· ≠ "")
+    let conns := (nn.drop 1).toString.toList
+    if conns.any (fun ch => ch != 'o' && ch != 'c') then none else
+    match parseActive (pp.drop 1).toString, ((cc.drop 1).toString.splitOn ":").mapM parseInt?, parseInt? (qq.drop 1).toString,
+        ((aa.drop 1).toString.splitOn ":").mapM parseInt?, strToks.mapM parseStream with
+    | some (act, gone), some [ch, ccl], some q, some [ah, ac], some streams =>
+      some (res, { active := act, activeGone := gone, connHost := ch, connCluster := ccl, reqCur := q, actHost := ah,
+                   actCluster := ac, conns := conns.map (· == 'o'), streams := streams })
+    | _, _, _, _, _ => none
+  | _ => none
+
+def okConn (res : String) : Option Nat := if res.startsWith "ok" then (res.drop 2).toString.toNat? else none
+
+/-- the property predicate along the implementation's observations; `told`: connections the upstream sent GOAWAY on
+(read off the case, not off the pool) -/
+def specAlong (maxReq : Nat) : Nat → List Nat → PoolH2.Obs → List PoolH2.Op → List String → Bool
+  | _, _, _, [], _ => true
+  | _, _, _, _ :: _, [] => true
+  | ext, told, before, op :: ops, t :: ts =>
+    match parseObs t with
+    | none => false
+    | some (res, o) =>
+      let ext' := match op with | .extInc => ext + 1 | .extDec => ext - 1 | _ => ext
+      let told' := match op with | .goAway c => c :: told | _ => told
+      let stepOk := match op with
+        | .newStream dial => (res.startsWith "ok" || res == "ovf" || res == "cf") &&
+            PoolH2.newStreamSpec maxReq ext (fun c => told.contains c) dial.fails before (okConn res) res o
+        | _ => res == "-"
+      stepOk && PoolH2.obsSpec maxReq ext' (fun c => told'.contains c) o && specAlong maxReq ext' told' o ops ts
+
+def emptyObs : PoolH2.Obs :=
+  { active := none, activeGone := false, connHost := 0, connCluster := 0, reqCur := 0, actHost := 0, actCluster := 0,
+    conns := [], streams := [] }
+
+def h2p (mr ops : String) (impl : List String) : String :=
+  match mr.toNat?, (ops.splitOn ",").mapM parseOp with
+  | some maxReq, some opl =>
+    let tr := PoolH2.trace (PoolH2.init maxReq) opl
+    let modelToks := tr.map (fun (r, s) => PoolH2.render r s)
+    let agree := impl == modelToks
+    let spec := impl.length == opl.length && specAlong maxReq 0 [] emptyObs opl impl
+    s!"{if agree then "A" else "D"} {if spec then "S" else "V"} {joinWith " " modelToks}"
+  | _, _ => "E E bad-case"
+
+end H2
+
 def run (caseToks impl : List String) : String :=
   match caseToks with
+  | ["h2p", mr, ops] => H2.h2p mr ops impl
   | ["mux", mc, mr, ops] => Mux.mux mc mr ops impl
   | ["once", threads, sched] => once threads sched impl
   | ["pool", kind, mc, mr, ops] => pool kind mc mr ops impl
